@@ -61,6 +61,12 @@ CHECKS = {
             'bdd_to_mdd over bit groupings x integer orders x bit orders x held sets, evaluated on every '
             'integer assignment; MDD algebra over all functions of domains (3,2) and (2,3,2); BFS over MDD '
             'histories with exact-count oracle', 'DESIGN.md 2/C15'),
+    'C16': (EX[0], 'bounded-exhaustive enumeration of input files: every node numbering (all linear extensions) '
+            'x header/varinfo modes x orders x gaps, generated independently of dd and loaded by the real '
+            'loader',
+            'every non-constant function of 3 variables (+ pairs, triples, 4-variable probes) x orders x '
+            'extra variables x 10 header modes x all numberings; known finding F4 matched by a precise '
+            'signature, any other mismatch is a violation', 'DESIGN.md 2/C16'),
     'C17': ('fault_enumeration', 'fault enumeration over explicit-state exploration: every rejected call of '
             'the menu injected in every state of a BFS of valid histories, followed by invariant '
             'check and differential continuation',
